@@ -86,3 +86,14 @@ class nosym:
         if self._cm is not None:
             self._cm.__exit__(*a)
         return False
+
+
+def pick(pool, i):
+    """pool[i] for a symbolic index: a linear chain of equality decisions, one solver-decided leaf per element."""
+    k = 0
+    n = len(pool) - 1
+    while k < n:
+        if i == k:
+            break
+        k += 1
+    return pool[k]
